@@ -126,6 +126,24 @@ func ResolveParamFields(p *Prog) {
 	}
 }
 
+// IsAtomGet / IsAtomSet: f reads / writes an atomic boolean flag given as its first argument - the library's own
+// AtomBool or the standard library's atomic.Bool (same argument layout: flag address, then the value for the setter).
+func IsAtomGet(f *ssa.Function) bool {
+	if f == nil {
+		return false
+	}
+	n := FuncName(f)
+	return n == "fpgo.AtomBool.Get" || n == "atomic.Bool.Load"
+}
+
+func IsAtomSet(f *ssa.Function) bool {
+	if f == nil {
+		return false
+	}
+	n := FuncName(f)
+	return n == "fpgo.AtomBool.Set" || n == "atomic.Bool.Store"
+}
+
 var thinMemo = map[*ssa.Function]ssa.Value{}
 
 // ThinReturn: f is an accessor of the repository - one block, no effects (only field selections, loads, conversions,
@@ -161,7 +179,7 @@ func ThinReturn(f *ssa.Function) ssa.Value {
 			g := Callee(&x.Call)
 			switch {
 			case IsBuiltin(&x.Call, "len"), IsBuiltin(&x.Call, "cap"):
-			case g != nil && FuncName(g) == "fpgo.AtomBool.Get":
+			case g != nil && IsAtomGet(g):
 			case g != nil && g != f && ThinReturn(g) != nil:
 			default:
 				return nil
@@ -195,7 +213,7 @@ func thinBase(call *ssa.Call) ssa.Value {
 			r = x.X
 			continue
 		case *ssa.Call:
-			if len(x.Call.Args) > 0 && (FuncName(Callee(&x.Call)) == "fpgo.AtomBool.Get") {
+			if len(x.Call.Args) > 0 && IsAtomGet(Callee(&x.Call)) {
 				r = x.Call.Args[0]
 				continue
 			}
@@ -267,7 +285,16 @@ func transparentStruct(t types.Type) bool {
 	if o.Obj().Pkg() == nil || len(o.Obj().Pkg().Path()) < len(ModPath) || o.Obj().Pkg().Path()[:len(ModPath)] != ModPath {
 		return false
 	}
-	return o.NumMethods() == 0 && !o.Obj().Exported()
+	if o.Obj().Exported() {
+		return false
+	}
+	// a grouping struct may carry unexported helper methods (they then count as helpers of the owner)
+	for i := 0; i < o.NumMethods(); i++ {
+		if o.Method(i).Exported() {
+			return false
+		}
+	}
+	return true
 }
 
 // FieldOwner returns the value a field is selected from, looking through grouping structs: for `q.signals.loadCh` the
